@@ -327,6 +327,11 @@ pub fn run(tier: &str) -> Result<Report, String> {
         let mut g = Gen::new(Alphabet::all_ops(ctx.nprops(), 3));
         let mut fs = g.closed_up_to(if tier == "quick" && ["con2", "asy2"].contains(&b.name.as_str()) { 4 } else { m });
         fs.extend(templates(&ctx.user, false, pool));
+        // sub-formulae repeated up to renaming at equal / different quantifier depths: substituting one of
+        // the occurrences (or an atom inside it) changes which sub-formulae are duplicates of each other
+        if b.n <= 2 || tier != "quick" {
+            fs.extend(crate::formulas::duplicate_templates(ctx.nprops(), if tier == "quick" { 4 } else { 5 }, tier == "quick", false));
+        }
         let res: Vec<(u64, Option<Violation>)> = fs
             .par_iter()
             .map(|f| {
@@ -429,6 +434,6 @@ pub fn run(tier: &str) -> Result<Report, String> {
     rep.evaluations = total;
     rep.distinct_nontrivial = total.saturating_sub(3 * rep.extra.get("formulae_x_networks").and_then(|v| v.as_u64()).unwrap_or(0));
     rep.sample(json!({"formula": "((!{x}: (AX {x})) & (EF a))", "case": "(%p% & (EF %q%)) with p := result of (!{x}: (AX {x})), q := result of a", "oracle": "raw result must equal (BDD equality) model_check_formula_dirty of the original"}));
-    rep.rule = format!("for every closed plain formula with <= {m} nodes (quick: 4 on con2 and asy2) and every plain template formula on the core networks {which:?}: every non-empty antichain of at most 3 closed proper sub-formula occurrences (atoms included) is replaced by wild-cards bound to model_check_formula_dirty of the sub-formula (once with a fresh wild-card per occurrence, once with one shared wild-card for equal sub-formulae), and the extended evaluation must equal the plain result as a set; plus the identity cases (plain formula through the extended entry points with an empty context); the same for surrounding formulae that themselves contain wild-cards and restricted domains (extended templates and all extended formulae with <= 3, thorough 4, nodes; label families mixed and colour-disjoint; antichains of <= 2). On the bundled models {:?}: benchmark-style formulae with all antichains of <= 2 non-atomic closed sub-formulae. distinct_nontrivial = number of substitution cases, i.e. evaluations minus the three identity calls per formula (each case a distinct (formula, replaced occurrences, label sharing) triple)", bigmodels::family(tier));
+    rep.rule = format!("for every closed plain formula with <= {m} nodes (quick: 4 on con2 and asy2) and every plain template formula (benchmark formulae, quantifier nests, sub-formulae duplicated up to renaming at equal / different depths) on the core networks {which:?}: every non-empty antichain of at most 3 closed proper sub-formula occurrences (atoms included) is replaced by wild-cards bound to model_check_formula_dirty of the sub-formula (once with a fresh wild-card per occurrence, once with one shared wild-card for equal sub-formulae), and the extended evaluation must equal the plain result as a set; plus the identity cases (plain formula through the extended entry points with an empty context); the same for surrounding formulae that themselves contain wild-cards and restricted domains (extended templates and all extended formulae with <= 3, thorough 4, nodes; label families mixed and colour-disjoint; antichains of <= 2). On the bundled models {:?}: benchmark-style formulae with all antichains of <= 2 non-atomic closed sub-formulae. distinct_nontrivial = number of substitution cases, i.e. evaluations minus the three identity calls per formula (each case a distinct (formula, replaced occurrences, label sharing) triple)", bigmodels::family(tier));
     Ok(rep)
 }
